@@ -25,6 +25,9 @@ def build(rnd, root):
             sub = os.path.join(d, name)
             os.makedirs(sub, exist_ok=True)
             kinds[sub] = "plain"
+            if rnd.random() < 0.15:
+                # a file named like a legacy configuration that is none (no project key): not a project of any schema version
+                open(os.path.join(sub, "signac.rc"), "w").write(rnd.choice(["something = 1\n", "# empty\n", "workspace_dir = ws\n"]))
             is_proj = rnd.random() < 0.4
             if is_proj:
                 signac.init_project(sub)
@@ -174,6 +177,6 @@ def run(tier="quick", seed=0):
             failures.append({"key": "discovery:" + str(sig)[:60], "description": bad,
                              "script": script_header() + f"sys.path.insert(0, '/verif')\nfrom pybound.c19 import scenario\nbad, sig = scenario({s})\nassert not bad, bad\n"})
     return {"scope": "generated directory trees to depth 5 mixing plain directories, projects, projects nested in plain sub-directories and inside job directories; every directory "
-                     "queried by absolute path and by a relative path from its parent; get_project (search on/off), get_job, init_project on existing projects, non-existent paths",
+                     "queried by absolute path and by a relative path from its parent; stray signac.rc files that are no legacy configuration; get_project (search on/off), get_job, init_project on existing projects, non-existent paths",
             "evaluations": evals, "distinct_nontrivial": len(distinct), "rule": "a case is one generated tree with all its directories queried; distinct by (number of projects, number of directories)",
             "samples": samples, "failures": failures}
